@@ -6,3 +6,5 @@ import DiplomatModel.Props.C17
 #print axioms DiplomatModel.Props.C17.lastOf_is_last
 #print axioms DiplomatModel.Props.C17.scoped_only_own_language
 #print axioms DiplomatModel.Props.C17.kebab_eq_snake
+#print axioms DiplomatModel.Props.C17.cli_arg_splits_at_first_eq
+#print axioms DiplomatModel.Props.C17.stray_cli_arg_skipped
